@@ -145,11 +145,77 @@ func (tr *Tr) staticCall(fr *frame, callee *ssa.Function, args []Val, bindings [
 		ob.Canary = true
 		return Val{Ty: rt}
 	}
-	if c := tr.G.contracts.Funcs[name]; c != nil && !c.Inline {
+	if c := tr.G.contracts.Funcs[name]; c != nil && !c.Inline && tr.pure == 0 {
 		return tr.applyContract(fr, callee, c, args, rt, pos)
 	}
 	if tr.canInline(fr, callee) {
 		return tr.inline(fr, callee, args, bindings, rt, pos)
+	}
+	if callee.Pkg != nil && pureStdlib[callee.Pkg.Pkg.Path()] {
+		// side-effect free, deterministic library functions on plain values: an uninterpreted function
+		// of the arguments (the same symbol a specification gets when it calls the function)
+		valueArgs := true
+		var sorts, ts []string
+		for _, a := range args {
+			if carriesRefs(a.Ty, map[types.Type]bool{}) {
+				valueArgs = false
+			}
+			sorts = append(sorts, tr.C.sortOf(a.Ty))
+			ts = append(ts, a.T)
+		}
+		if valueArgs {
+			mk := func(t types.Type, suffix string) Val {
+				fn := "pure_" + mangle(callee.String()) + suffix
+				tr.C.declare(fn, fmt.Sprintf("(declare-fun %s (%s) %s)", fn, strings.Join(sorts, " "), tr.C.sortOf(t)))
+				v := Val{T: fn, Ty: t}
+				if len(ts) > 0 {
+					v.T = app(fn, ts...)
+				}
+				v.T = tr.define(tr.C.sortOf(t), v.T, "pure")
+				tr.assume(fr.curReach, tr.wf(v))
+				return v
+			}
+			tr.C.assumpt["modelled as an uninterpreted deterministic function of its arguments: "+callee.String()] = true
+			if tup, ok := rt.(*types.Tuple); ok {
+				if tup.Len() == 0 {
+					return Val{Ty: rt}
+				}
+				var vs []Val
+				for i := 0; i < tup.Len(); i++ {
+					sfx := ""
+					if i > 0 {
+						sfx = fmt.Sprintf("!%d", i)
+					}
+					vs = append(vs, mk(tup.At(i).Type(), sfx))
+				}
+				return Val{Tuple: vs, Ty: rt}
+			}
+			return mk(rt, "")
+		}
+	}
+	if tr.pure > 0 {
+		// inside a specification an unknown callee is an uninterpreted (deterministic) function of
+		// its arguments, provided they are plain values
+		var sorts, ts []string
+		for _, a := range args {
+			if carriesRefs(a.Ty, map[types.Type]bool{}) {
+				vfail("specification calls %s with reference arguments; it has neither contract nor inlinable body", callee)
+			}
+			sorts = append(sorts, tr.C.sortOf(a.Ty))
+			ts = append(ts, a.T)
+		}
+		if tup, ok := rt.(*types.Tuple); ok && tup.Len() != 1 {
+			vfail("specification calls %s, which does not have exactly one result", callee)
+		} else if ok {
+			rt = tup.At(0).Type()
+		}
+		fn := "pure_" + mangle(callee.String())
+		tr.C.declare(fn, fmt.Sprintf("(declare-fun %s (%s) %s)", fn, strings.Join(sorts, " "), tr.C.sortOf(rt)))
+		tr.C.assumpt["uninterpreted in specifications and code alike: "+callee.String()] = true
+		if len(ts) == 0 {
+			return Val{T: fn, Ty: rt}
+		}
+		return Val{T: app(fn, ts...), Ty: rt}
 	}
 	tr.vc.Unknown[shortFuncName(callee)]++
 	touches := false
